@@ -3,6 +3,7 @@ LOCKSET (queue under its lock), ORDER in SendMessageAux (enqueue, decide 'first'
 (drain wake-up byte, then locked dequeue, then block, then re-enter), WaitCondition (counter under its mutex, predicate waits, notify under the mutex),
 shutdown and start signalling."""
 import re
+from msa import guards as G
 from msa import pair as P
 from msa import ast as A
 from msa import cfg as C
@@ -162,7 +163,19 @@ def run(res, tier):
                 for l in lam:
                     body = fx.funcs.get(l.get('fn'))
                     if body is not None and body.full:
-                        pred_ok = any(x['k'] == 'BinaryOperator' and x.get('op') in ('>', '!=') and A.strip_casts(x['ch'][0]).get('n') == '_pendingNotificationsCount' and x['ch'][1].get('v') == 0 for x in body.walk())
+                        for r in (x for x in body.walk() if x['k'] == 'ReturnStmt' and x['ch']):
+                            z = [A.zero_test(a, t) for (a, t) in A.implied_atoms(r['ch'][0], True)]
+                            if any(y is not None and not y[1] and A.strip_casts(y[0]).get('n') == '_pendingNotificationsCount' for y in z):
+                                pred_ok = True
+                if not lam:
+                    # the hand-written form of the same thing: while (count == 0) cv.wait(lock);
+                    pb = P.pos_of(g, c)
+                    for (h, lbody) in C.natural_loops(g):
+                        if pb and pb[0] in lbody:
+                            for (cn, t) in G.atoms_at(g, c):
+                                z = A.zero_test(cn, t)
+                                if z is not None and z[1] and A.strip_casts(z[0]).get('n') == '_pendingNotificationsCount' and P.pos_of(g, cn) and P.pos_of(g, cn)[0] in lbody | {h}:
+                                    pred_ok = True
                 held = wcl.held_at(g, c)
                 res.ob('WAITCOND', g.where(c), 'native %s in %s has the predicate (_pendingNotificationsCount > 0) and holds the mutex' % ((c.get('q') or '').split('::')[-1], g.q.split('::')[-1]),
                        pred_ok and ('this', '_conditionMutex') in held, function=g.q, key='WAITCOND|%s|predicate' % g.q,
